@@ -1532,6 +1532,10 @@ func ReadLV(r io.Reader) ([]byte, error) {
 	if sz >= MaxMessageSize {
 		return nil, fmt.Errorf("max message size of %d exceeded: %d", MaxMessageSize, sz)
 	}
+	// The size is read as a signed integer; a negative value must not reach make.
+	if sz < 0 {
+		return nil, fmt.Errorf("invalid message size: %d", sz)
+	}
 
 	// Read the value.
 	buf := make([]byte, sz)
